@@ -62,7 +62,7 @@ TRACK = ["skfem.io.meshio:to_meshio", "skfem.io.meshio:from_meshio", "skfem.io.m
 REQUIRED_MONITORS = ["mesh-class", "vertex-coordinates", "connectivity", "high-order-nodes-per-cell", "tag-names",
                      "subdomain-sets", "boundary-facet-sets", "orientations", "tag-arrays-are-index-arrays",
                      "point-data", "cell-data", "export-does-not-alter-mesh", "export-succeeds"]
-REQUIRED_REACH = ["interior-facet-flag-1", "two-tagged-facets-share-owner-cell", "several-subdomains-share-cell",
+REQUIRED_REACH = ["more-than-127-cells", "interior-facet-flag-1", "two-tagged-facets-share-owner-cell", "several-subdomains-share-cell",
                   "second-order-curved", "hex-permutation", "docs-meshes-cycled", "oriented-boundary-loaded",
                   "boundary-and-interior-facets-in-one-tag", "format:gmsh41", "format:gmsh22", "format:vtk",
                   "format:vtu", "format:meshio-object", "format:npz", "format:dict", "format:json"]
@@ -606,6 +606,11 @@ def random_case(kind):
     def fn(ctx, k):
         rng = ctx.rng()
         mc = G.first_order(rng, kind, renum=bool(k % 5))
+        if k % 7 == 3 and mc.mesh.t.shape[1] <= 120:
+            # a few hundred cells: more than 127/255 cells and facets, several tagged facets per cell
+            mc = G.MeshCase(mc.mesh.refined(1), kind, 1, dict(mc.desc, refined=1), affine_cells=mc.affine_cells,
+                            planar_faces=mc.planar_faces)
+            ctx.reached("more-than-127-cells", int(mc.mesh.t.shape[1] > 127))
         order = 1 + (k % 2)
         if order == 2:
             mc = G.second_order(rng, mc, curved=bool((k // 2) % 3))
@@ -704,6 +709,16 @@ def d_empty_and_none(ctx, name):
             tags.add_sub("nothing", np.array([], dtype=np.int64), "sub-empty")
             tags.add_bnd("nowhere", np.array([], dtype=np.int32), None, "bnd-empty")
             cycle_all(ctx, tags.apply(mesh), tags, {"directed": name, "kind": kind, "order": order, "tags": "empty"},
+                      with_data=False)
+        for order in (1, 2):
+            # one cell only: no interior facet at all
+            # (init_refdom of the second-order classes carries no high-order nodes: not a valid mesh)
+            m1 = G.mesh_class(kind, 1).init_refdom()
+            m1 = m1 if order == 1 else G.mesh_class(kind, 2).from_mesh(m1)
+            tags = Tags()
+            tags.add_sub("only", np.array([0], dtype=np.int32), "sub-all")
+            tags.add_bnd("some", np.array([0, m1.facets.shape[1] - 1], dtype=np.int32), None, "bnd-boundary")
+            cycle_all(ctx, tags.apply(m1), tags, {"directed": name, "kind": kind, "order": order, "tags": "refdom"},
                       with_data=False)
         m = _interface_mesh(kind, 1).with_defaults()
         tags = Tags()
@@ -827,6 +842,6 @@ def docs_meshes(ctx, k):
 
 
 FAMILIES = [Family("rt-" + kd, random_case(kd), quick=q, thorough=th, budget={"quick": 40, "thorough": 500})
-            for kd, q, th in (("tri", 10, 480), ("quad", 10, 480), ("tet", 8, 400), ("hex", 8, 400))]
+            for kd, q, th in (("tri", 100, 4000), ("quad", 100, 4000), ("tet", 90, 3600), ("hex", 90, 3600))]
 FAMILIES.append(Family("directed", directed, len(DIRECTED), len(DIRECTED), budget={"quick": 60, "thorough": 120}))
 FAMILIES.append(Family("docs-meshes", docs_meshes, 1, 40, budget={"quick": 60, "thorough": 300}))
